@@ -35,6 +35,9 @@ func c12Ops() []histOp {
 		{"swap-two-keys", "R.t1 = %f; R.t2 = %f; T = " + BI("keys", "R") + "; " + del("R", `"t1"`) + " " + del("R", `"t2"`) + " R.u1%n = %f; R.u2%n = %f;", false},
 		{"chained-property-writes", "P.c1 = Q.c2 = R.c3 = %f; " + Print("P.c1 + Q.c2 + R.c3"), false},
 		{"property-write-as-value", "T = (P.pv = %f); " + Print("T") + " " + Print("[Q.pv2 = %f, (R.pv3 = {in: %f}).in]") + " T = nil;", false},
+		{"write-signed-zeros", "P.z = 0; Q.z = 0; P.z = -0; " + Print("P.z") + " R.nz = -0; R.nz = 0; " + Print("R.nz"), false},
+		{"write-equal-looking-values", "P.e = 1; P.e = " + True() + "; Q.e2 = \"1\"; Q.e2 = 1; R.e3 = nil; R.e3 = " + False() + "; R.e4 = \"\"; R.e4 = 0;", false},
+		{"listing-element-identity", "P.ch = {n: %f}; T = " + BI("values", "{only: P.ch}") + "; T[0].n = %f; " + Print("P.ch.n") + " " + Print("T[0] == P.ch") + " T = nil;", false},
 		{"read-after-write", "P.k = %f; " + Print("P.k"), false}, {"read-nested", "Q.sub2 = {d: %f}; " + Print("Q.sub2.d"), false},
 		// faulting steps
 		{"read-absent", Print("P.absent"), true}, {"read-on-nil", Print("T.k"), true}, {"read-on-array", Print("arr.k"), true}, {"read-on-number", Print("(5).k"), true}, {"read-on-string", Print(`"s".k`), true},
@@ -57,7 +60,7 @@ func c12Run(c *Ctx) {
 	}
 	enumHistories(c, ops, 2, 1, emit("histories-len<=2"))
 	if c.Quick() {
-		enumHistories(c, ops, 3, 3, emit("histories-len<=3-every-3rd"))
+		enumHistories(c, ops, 3, 7, emit("histories-len<=3-every-7th"))
 	} else {
 		enumHistories(c, ops, 4, 1, emit("histories-len<=4"))
 	}
@@ -111,7 +114,7 @@ func c12Run(c *Ctx) {
 func init() {
 	register(&CheckDef{
 		ID:   "C12",
-		Rule: "histories over three object variables with shared ancestry (aliases, an array and an outer object holding them, parameter-writing and parameter-deleting functions) and the key pool {k, ক, x1, মান, ...}: 29 non-faulting step kinds (alias, literals with 0/2/3/6 keys and nested, write new / existing / nil-valued / object-valued property directly, through a parameter, an array element, an outer object; write-then-delete directly, through a parameter, with a computed key, of a nil-valued property; reads) and 14 faulting step kinds (read absent, . on nil/array/number/string, write on non-object, delete absent / twice / non-string key / non-object, listings of non-objects); every history of <=2 steps, every 3rd of <=3 (quick) / all of <=4 (thorough), each also ended by every faulting step; random histories of 4-34 steps. After every step every live object is printed together with its key list and value list, each listing twice in a row; every program is executed 3 times (hash-iteration order is the schedule). Listings may come in any order but all listings of one unmodified object must agree position-wise (keys with values). Compared with refborno's pure map model. Non-trivial = distinct decided history.",
+		Rule: "histories over three object variables with shared ancestry (aliases, an array and an outer object holding them, parameter-writing and parameter-deleting functions) and the key pool {k, ক, x1, মান, ...}: 29 non-faulting step kinds (alias, literals with 0/2/3/6 keys and nested, write new / existing / nil-valued / object-valued property directly, through a parameter, an array element, an outer object; write-then-delete directly, through a parameter, with a computed key, of a nil-valued property; reads) and 14 faulting step kinds (read absent, . on nil/array/number/string, write on non-object, delete absent / twice / non-string key / non-object, listings of non-objects); every history of <=2 steps, every 7th of <=3 (quick) / all of <=4 (thorough), each also ended by every faulting step; random histories of 4-34 steps. After every step every live object is printed together with its key list and value list, each listing twice in a row; every program is executed 3 times (hash-iteration order is the schedule). Listings may come in any order but all listings of one unmodified object must agree position-wise (keys with values). Compared with refborno's pure map model. Non-trivial = distinct decided history.",
 		Assumptions: []string{"the order of a key/value listing is not pinned, only its consistency; what কি_রিমুভ returns is not pinned"},
 		Run:         c12Run,
 		Judge:       c12Judge,
